@@ -101,8 +101,13 @@ def finish(ctx, level="other", technique="", assumptions=None, explanation=""):
         else:
             new.append(v)
     os.makedirs(os.path.join(EVID, "violations"), exist_ok=True)
+    printed = set()
     for v, kf in hit_known:
-        print("KNOWN-FINDING: property=%s %s — %s" % (ctx.pid, v.key, kf.get("what", v.found)))
+        if v.key in printed:
+            continue
+        printed.add(v.key)
+        n = sum(1 for x, _ in hit_known if x.key == v.key)
+        print("KNOWN-FINDING: property=%s %s%s — %s" % (ctx.pid, v.key, (" (x%d)" % n) if n > 1 else "", kf.get("what", v.found)))
     rc = 0
     for i, v in enumerate(new):
         rp = os.path.join("evidence", "violations", "%s-%04d.json" % (ctx.pid, i + 1))
